@@ -168,6 +168,44 @@ def edits_class(r, k, G, start, n, fast_ok):
     r.ctr['edited_walk_strings'] += len(seen)
 
 
+def long_class(r, k, G, start, n):
+    """Long strands on larger graphs: rule-generated walks of n nucleotides and every single edit of
+    them (accepted iff still a walk), in both modes, with and without a table."""
+    acc = U.A(G)
+    R = O.reach(G, start)
+    fast_ok = coder.no_deg3(G, R)
+    T = U.table_latin(len(G), 1)
+    tab = np.array(T, dtype=int)
+    seen = set()
+    for a, b in ((7, 3), (1, 0)):
+        w = U.rule_walk(G, start, n, a, b)
+        if len(w) < n:
+            continue
+        cands = [w] + [e[3] for e in U.single_edits(w)] + [w[:i] + 'N' + w[i + 1:] for i in range(0, n, 5)]
+        for s in cands:
+            if s in seen:
+                continue
+            seen.add(s)
+            need = bits_needed(s)
+            wk = O.is_walk(G, start, s)
+            dec_case(r, k, G, acc, start, s, need, walk=wk)
+            dec_case(r, k, G, acc, start, s, need, T=T, tab=tab, walk=wk)
+            if fast_ok:
+                dec_case(r, k, G, acc, start, s, need, fast=True, walk=wk)
+                dec_case(r, k, G, acc, start, s, carried_bits(G, start, s), fast=True, walk=wk)
+    r.states += len(seen)
+    r.nontriv += len(seen)
+    r.ctr['long_strings'] += len(seen)
+    r.maxi('long_strand_nt', n)
+
+
+def _w_long(args):
+    r = core.Res()
+    k, G, start, n = args
+    long_class(r, k, G, start, n)
+    return r
+
+
 def check_case(r, kind, case):
     G = case['G']
     T = case.get('table')
@@ -212,7 +250,18 @@ def run(ctx):
     ctx.log('G1 done', ctx.res.evals)
     items = [it for it in coder.other_graphs(ctx.quick) if it[0] == 2]
     ctx.pmap(_w_other, [(ctx.quick, c) for c in core.chunks_of(items, 10)])
-    ctx.bounds = {'G1': 'all 158,824 (graph,start) classes incl. ill-formed graphs and dead starts',
+    from .. import repair as RP
+    lg = RP.filter_graphs((3, 4, 5), ts=(1, 2), small=True)
+    jobs = []
+    for k, G, t in lg[:(9 if ctx.quick else 30)]:
+        live = sorted(O.has_arcs(G))
+        for st_ in (live[0], live[len(live) // 2], live[-1]):
+            for n in ((40,) if ctx.quick else (40, 150)):
+                jobs.append((k, G, st_, n))
+    ctx.pmap(_w_long, jobs)
+    ctx.guard('long strands', ctx.res.ctr['long_strings'] > 1000)
+    ctx.bounds = {'long_strands': '%d (filter graph of order 3-5, start) pairs: rule walks of %s nt with every single edit' % (len(jobs), '40' if ctx.quick else '40 and 150'),
+                  'G1': 'all 158,824 (graph,start) classes incl. ill-formed graphs and dead starts',
                   'automaton': 'every reachable vertex (shortest prefix and every walk prefix of length <= %d) x 8 symbols x continuations of length <= %d'
                                % ((1, 1) if ctx.quick else (3, 2)),
                   'brute_force': 'all strings over ACGTN of length <= %d on classes with <= 2 reachable vertices' % (4 if ctx.quick else 6),
